@@ -431,8 +431,12 @@ func (seq Sequence) Truncate(width int, resolution time.Duration, asOf time.Time
 			if bytesToRemove+Width64bits >= len(seq) {
 				return nil
 			}
-			result = result[bytesToRemove:]
-			result.SetUntil(until)
+			// Copy rather than re-slice: writing the new until into a re-sliced
+			// view would overwrite period data in the caller's sequence.
+			truncated := make(Sequence, len(seq)-bytesToRemove)
+			copy(truncated[Width64bits:], seq[Width64bits+bytesToRemove:])
+			truncated.SetUntil(until)
+			result = truncated
 		}
 	}
 
